@@ -39,6 +39,7 @@ func env(extra ...string) []string {
 // prints VIOLATION.
 func Trouble(format string, a ...any) {
 	fmt.Printf("HARNESS-TROUBLE: "+format+"\n", a...)
+	CleanupRaceDir()
 	os.Exit(2)
 }
 
@@ -145,14 +146,20 @@ func (r *runner) take() (int, int, bool) {
 	return from, to, true
 }
 
+// raceDir is private to this orchestrator process: race logs are named
+// <dir>/r<slot>.<pid>, and a recycled pid must never meet a stale log.
+var raceDir = filepath.Join(VerifDir, ".work", fmt.Sprintf("race-%d-%d", os.Getpid(), time.Now().UnixNano()))
+
 func raceEnv(race bool, slot int) []string {
 	if !race {
 		return nil
 	}
-	dir := filepath.Join(VerifDir, ".work", "race")
-	os.MkdirAll(dir, 0o755)
-	return []string{fmt.Sprintf("GORACE=log_path=%s/r%d halt_on_error=0", dir, slot)}
+	os.MkdirAll(raceDir, 0o755)
+	return []string{fmt.Sprintf("GORACE=log_path=%s/r%d halt_on_error=0 atexit_sleep_ms=0", raceDir, slot)}
 }
+
+// CleanupRaceDir removes this process' race logs.
+func CleanupRaceDir() { os.RemoveAll(raceDir) }
 
 // invoke runs one worker process over [from,to); returns the records, the
 // exit code and stderr.
@@ -183,9 +190,31 @@ func invoke(bin string, procs int, race bool, slot int, args ...string) ([]sim.R
 			code = -1
 		}
 	}
-	// remove race logs of this pid
+	// collect and remove the race log of this pid
 	if race && cmd.Process != nil {
-		os.Remove(filepath.Join(VerifDir, ".work", "race", fmt.Sprintf("r%d.%d", slot, cmd.Process.Pid)))
+		lp := filepath.Join(raceDir, fmt.Sprintf("r%d.%d", slot, cmd.Process.Pid))
+		if b, err := os.ReadFile(lp); err == nil && len(b) > 0 {
+			attributed := false
+			for _, r := range recs {
+				if r.Result.Violation != nil && strings.HasPrefix(r.Result.Violation.Class, "race/") {
+					attributed = true
+				}
+			}
+			if !attributed && len(recs) > 0 {
+				// a report the worker did not attribute to a run (it came
+				// after the run's end, e.g. from a goroutine the call left
+				// behind): it belongs to the last run executed
+				last := recs[len(recs)-1]
+				last.Result.Violation = &sim.Violation{Class: "race/late-report", Msg: "data race reported by the race detector after the run that caused it had ended", Detail: head(string(b), 6000)}
+				last.Regenerate = true
+				last.Trace = nil
+				recs[len(recs)-1] = last
+				if code == 66 {
+					code = 0
+				}
+			}
+		}
+		os.Remove(lp)
 	}
 	return recs, code, stderr.String()
 }
@@ -374,6 +403,9 @@ func Check(tier, id string) int {
 	a := newAgg()
 	detPairs, detMismatch := 0, []string{}
 	for _, sc := range p.Scenarios {
+		if only := os.Getenv("VERIF_SCEN"); only != "" && only != sc.Name {
+			continue // debugging aid: restrict the check to one scenario family
+		}
 		runs, secs := sc.QuickRuns, sc.QuickS
 		det := sc.DetQuick
 		if tier == "thorough" {
